@@ -6,7 +6,7 @@ Import ListNotations.
 Open Scope N_scope.
 
 Lemma jan_source_shape_proof :
-  JAN_AGE_SIGNED = true /\ JAN_CMP_STRICT = true /\
+  JAN_AGE_SIGNED = true /\ JAN_CMP_STRICT = true /\ JAN_CLOSING_STATE = TCP_STATE_CLOSING /\
   JAN_UDP_NS = DOC_UDP_IDLE_NS /\ JAN_UDP_DNS_NS = DOC_UDP_DNS_IDLE_NS /\
   JAN_TCP_EST_NS = DOC_TCP_IDLE_NS /\ JAN_TCP_CLOSING_NS = DOC_TCP_CLOSING_NS /\
   JAN_UDP_NS = UDP_CONN_STATE_TIMEOUT_NS /\ JAN_TCP_EST_NS = TCP_CONN_STATE_ESTABLISHED_TIMEOUT_NS /\
@@ -41,15 +41,15 @@ Qed.
    documented timeout at the sample, as integers *)
 Lemma jan_selects_iff_idle_proof : forall sample k s,
   sample < TWO63 -> cs_last s < TWO63 ->
-  jan_code_selected false 0 sample k s = spec_jan_removes sample k (cs_state s =? 1) (cs_last s).
+  jan_code_selected false 0 sample k s = spec_jan_removes sample k (cs_state s =? TCP_STATE_CLOSING) (cs_last s).
 Proof.
   intros sample k s Hn Hl. unfold jan_code_selected, jan_selected, spec_jan_removes, jan_timeout.
-  destruct jan_source_shape_proof as (-> & -> & -> & -> & -> & -> & _).
+  destruct jan_source_shape_proof as (-> & -> & -> & -> & -> & -> & -> & _).
   cbn [N.ltb N.compare andb orb].
   destruct (k_proto k =? IPPROTO_UDP).
   - destruct ((k_sport k =? 53) || (k_dport k =? 53)); rewrite exceeds_signed by assumption; rewrite orb_false_r; reflexivity.
   - destruct (k_proto k =? IPPROTO_TCP); [| reflexivity].
-    destruct (cs_state s =? 1); rewrite exceeds_signed by assumption; rewrite orb_false_r; reflexivity.
+    destruct (cs_state s =? TCP_STATE_CLOSING); rewrite exceeds_signed by assumption; rewrite orb_false_r; reflexivity.
 Qed.
 
 Lemma jan_never_selects_refreshed_proof : forall sample k s,
@@ -57,13 +57,13 @@ Lemma jan_never_selects_refreshed_proof : forall sample k s,
   jan_code_selected false 0 sample k s = false.
 Proof.
   intros sample k s Hn Hl Hle. rewrite jan_selects_iff_idle_proof by assumption.
-  unfold spec_jan_removes. destruct (jan_timeout k (cs_state s =? 1)); [| reflexivity]. apply N.ltb_ge. lia.
+  unfold spec_jan_removes. destruct (jan_timeout k (cs_state s =? TCP_STATE_CLOSING)); [| reflexivity]. apply N.ltb_ge. lia.
 Qed.
 
 (* the unsigned reading of the age selects an entry refreshed one nanosecond after the sample *)
 Lemma jan_unsigned_refuted_proof :
   ~ (forall sample k s, sample < TWO63 -> cs_last s < TWO63 ->
-       jan_selected false true false 0 sample k s = spec_jan_removes sample k (cs_state s =? 1) (cs_last s)).
+       jan_selected false true false 0 sample k s = spec_jan_removes sample k (cs_state s =? TCP_STATE_CLOSING) (cs_last s)).
 Proof.
   intro H.
   specialize (H 5000000000 (mk_fkey 1 2 40000 443 6) (mk_cs false 0 5000000001 0 7 0 0 1 0 0 0) eq_refl eq_refl).
@@ -101,7 +101,7 @@ Definition quiet_event (P : param) (st : kstate) (ev : event) (k : fkey) : Prop 
   | EvSweep t =>
       t < TWO63 /\
       exists s, tab_get (ks_conn st) k = Some s /\ cs_last s < TWO63 /\
-                t <= cs_last s + (if cs_state s =? 1 then DOC_TCP_CLOSING_NS else DOC_TCP_IDLE_NS)
+                t <= cs_last s + (if cs_state s =? TCP_STATE_CLOSING then DOC_TCP_CLOSING_NS else DOC_TCP_IDLE_NS)
   end.
 Fixpoint quiet_events (P : param) (st : kstate) (evs : list event) (k : fkey) : Prop :=
   match evs with [] => True | ev :: r => quiet_event P st ev k /\ quiet_events P (run_event P st ev) r k end.
@@ -124,4 +124,23 @@ Lemma sticky_history_proof : forall P evs st k d,
 Proof.
   intros P evs. induction evs as [| ev r IH]; intros st k d Hk Hd Hq; cbn [run_events]; [exact Hd|].
   destruct Hq as [Hq1 Hq2]. apply IH; [exact Hk | | exact Hq2]. apply event_keeps_decision; assumption.
+Qed.
+
+(* kernel-written state -> janitor timeout class *)
+Lemma jan_state_classes_proof :
+  (forall m k w a now s', fst (mark_tcp_seen m k w false true a now) = Some s' -> (cs_state s' =? JAN_CLOSING_STATE) = true) /\
+  (forall wan now a, (cs_state (new_state wan now a) =? JAN_CLOSING_STATE) = false) /\
+  (forall m k w a now s s', tab_get m k = Some s -> (cs_state s =? JAN_CLOSING_STATE) = false ->
+     fst (mark_tcp_seen m k w false false a now) = Some s' -> (cs_state s' =? JAN_CLOSING_STATE) = false).
+Proof.
+  repeat split.
+  - intros m k w a now s'. unfold mark_tcp_seen.
+    destruct (tab_get m k) as [s|]; [destruct (tcp_conn_state_expired s now)|]; cbn [fst]; try discriminate.
+    intro H. inversion H. unfold apply_routing.
+    destruct (a_rt a) as [[[o mk] mu]|]; destruct (gt (sub64 now (cs_last s)) TCP_CONN_STATE_UPDATE_INTERVAL_NS); reflexivity.
+  - intros wan now a. unfold new_state. destruct (a_rt a) as [[[o mk] mu]|]; reflexivity.
+  - intros m k w a now s s' Hg Hs. unfold mark_tcp_seen. rewrite Hg.
+    destruct (tcp_conn_state_expired s now); cbn [fst]; try discriminate.
+    intro H. inversion H. unfold apply_routing.
+    destruct (a_rt a) as [[[o mk] mu]|]; destruct (gt (sub64 now (cs_last s)) TCP_CONN_STATE_UPDATE_INTERVAL_NS); cbn; exact Hs.
 Qed.
